@@ -188,6 +188,9 @@ func (f *FailoverOf[V]) Get(
 		return f.waitForValue(withoutSkipRead(ctx), key, keyLock)
 	}
 
+	// Expired value is served if update fails, even if it has expired longer than MaxStaleness.
+	stale, hasStale := f.expiredValue(err)
+
 	// Pushing expired value with short ttl to serve during update.
 	if v, freshEnough := f.freshEnough(err); freshEnough {
 		if err = f.refreshStale(ctx, key, v); err != nil {
@@ -221,8 +224,8 @@ func (f *FailoverOf[V]) Get(
 					"key", key)
 			}
 
-			if !f.config.FailHard && !errors.Is(err, ErrNotFound) {
-				return val, nil
+			if !f.config.FailHard && hasStale {
+				return stale, nil
 			}
 		}
 
@@ -267,6 +270,16 @@ func (f *FailoverOf[V]) freshEnough(err error) (val V, _ bool) {
 		if f.config.MaxStaleness == 0 || time.Since(errExpired.ExpiredAt()) < f.config.MaxStaleness {
 			return errExpired.Value(), true
 		}
+	}
+
+	return val, false
+}
+
+func (f *FailoverOf[V]) expiredValue(err error) (val V, _ bool) {
+	var errExpired ErrWithExpiredItemOf[V]
+
+	if errors.As(err, &errExpired) {
+		return errExpired.Value(), true
 	}
 
 	return val, false
